@@ -105,3 +105,11 @@ impl ConnectionId {
         self.0
     }
 }
+
+#[cfg(litep2p_verif)]
+impl SubstreamId {
+    /// Numeric value of the substream id (verification hook).
+    pub fn verif_as_usize(&self) -> usize {
+        self.0
+    }
+}
